@@ -67,6 +67,13 @@ pub fn eval(ctx: &Ctx, case: &Case) {
                     return;
                 }
             };
+            // tag ".../Zq=<name>/Zp=<name>": the key objects hold Ppub-s (G2) and ds (G1) in those Jacobian representations
+            let (mut key, mut msk) = (key, msk);
+            if let Some((zq, zp)) = z_names(tag) {
+                msk.ppubs = lib_g2(&ppubs, &z2_named(&zq, ctx.seed));
+                key.ppubs = msk.ppubs;
+                key.ds = lib_g1(&ds, &z1_named(&zp, ctx.seed));
+            }
             let mut gsm = SplitMix::new(ctx.seed, "c09filler");
             let mut q = vec![cand(&r)];
             for _ in 0..4 {
@@ -221,7 +228,7 @@ pub const ANNEX_R: &str = "00033C8616B06704813203DFD00965022ED15975C662337AED648
 pub fn run(ctx: &Arc<Ctx>) {
     refmodels::selftest::run(&["sm3", "sm9"]).unwrap_or_else(|e| ctx.machinery_error(format!("reference self-test failed: {}", e)));
     let n = sm9::params().n.clone();
-    ctx.set_rule("signing: master keys {Annex ks, 1, N-2, seeded, H1(ID), 2^256-H1(ID)+{-1,0,1}} x nonces r (via the RNG seam) {1,2,N-2,Annex r,2^255,seeded x2} at one identity/message, identities {Alice,'',64 bytes,seeded} x message lengths {0,1,20,55,56,64,1024} at one (master, r): (h,S) equals the reference signature for the accepted r (incl. the GM/T 0044.5 example), h in [1,N-1], S on the curve, the library verifies it. Verification: reference-made signatures must be accepted as they are and with S in another Jacobian representation; all 256 single-bit flips of h, h in {0,1,N-1,N,N+1,2^256-1,h+N}, S in {-S,2S,P1,ds,infinity,off-curve,(0,0)}, altered message / identity / master public key must be refused with an error, never a panic.");
+    ctx.set_rule("signing: master keys {Annex ks, 1, N-2, seeded, H1(ID), 2^256-H1(ID)+{-1,0,1}} x nonces r (via the RNG seam) {1,2,N-2,Annex r,2^255,seeded x2} at one identity/message, identities {Alice,'',64 bytes,seeded} x message lengths {0,1,20,55,56,64,1024} at one (master, r), key objects holding Ppub-s / ds in Jacobian representations with structured Z (Z in Fp, purely imaginary, generic): (h,S) equals the reference signature for the accepted r (incl. the GM/T 0044.5 example), h in [1,N-1], S on the curve, the library verifies it. Verification: reference-made signatures must be accepted as they are and with S in another Jacobian representation; all 256 single-bit flips of h, h in {0,1,N-1,N,N+1,2^256-1,h+N}, S in {-S,2S,P1,ds,infinity,off-curve,(0,0)}, altered message / identity / master public key must be refused with an error, never a panic.");
     let mut g = SplitMix::new(ctx.seed, "c09");
     // ks = H1(Alice||01): [H1]P2 + Ppub-s is then a doubling inside verification
     let masters: Vec<(String, BigUint)> = vec![("annex".into(), hb(ANNEX_KS)), ("1".into(), BigUint::one()), ("N-2".into(), &n - 2u32), ("seed".into(), g.nonzero_below(&n)), ("H1(ID)".into(), sm9::h1(b"Alice", sm9::HID_SIGN))];
@@ -241,6 +248,11 @@ pub fn run(ctx: &Arc<Ctx>) {
         for ml in mlens {
             cases.push(Case::Sign { ks: ANNEX_KS.into(), id: id.into(), msg_len: ml, r: ANNEX_R.into(), tag: format!("id={}/mlen={}", if id.starts_with("len:") { id } else { "text" }, ml) });
         }
+    }
+    // key objects in other Jacobian representations (the fields are public; extract_key and decoders produce both kinds)
+    for (i, zq) in Z2_NAMES.iter().enumerate() {
+        let zp = Z1_NAMES[i % Z1_NAMES.len()];
+        cases.push(Case::Sign { ks: ANNEX_KS.into(), id: "Alice".into(), msg_len: 20, r: ANNEX_R.into(), tag: format!("key-objects/Zq={}/Zp={}", zq, zp) });
     }
     // ks with H1(ID||01) + ks = 2^256 (+-1): the modular addition inside extraction carries out of 256 bits
     {
